@@ -166,6 +166,56 @@ Proof.
   - now apply IH.
 Qed.
 
+Definition gam_of (i : N) (cf : option N) (a : afunc) : option N :=
+  match a with FInit => cf | FSelf => Some i | FNil => None end.
+
+(* what one item of the abstract trace stands for in the concrete walk of node i with children ch *)
+Definition interp_of (i : N) (cf : option N) (stk : list N) (ch : list (N * node)) (it : titem) : list ev :=
+  match it with
+  | TVisit t dx a => [{| e_id := i; e_tag := t; e_dead := dx; e_func := gam_of i cf a; e_path := stk ++ [i] |}]
+  | TWalk f dx a => field_events ch f dx (gam_of i cf a) (stk ++ [i])
+  end.
+
+(* a trace that passes the finite check, interpreted, is the specified event list of the node *)
+Lemma trace_events k i c ch d cf stk (tr : list titem) :
+  grouped (map fst (kfields (S k))) ch -> wf_children k ch ->
+  filter (keep (S k)) tr = expected (S k) c d ->
+  flat_map (interp_of i cf stk ch) tr = events (Node k i c ch) d cf stk.
+Proof.
+  intros Hg Hch Htr.
+  assert (Hdrop : flat_map (interp_of i cf stk ch) tr = flat_map (interp_of i cf stk ch) (filter (keep (S k)) tr)).
+  { symmetry. apply flat_map_nil_filter. intros it _ Hk. destruct it as [t dx a|f dx a]; [discriminate|].
+    cbn [keep] in Hk. apply negb_false_iff in Hk. cbn [interp_of]. eapply inert_field_events; eassumption. }
+  rewrite Hdrop, Htr. rewrite events_eq. unfold expected. rewrite flat_map_app. f_equal.
+  - unfold own_event. destruct (ktag (S k)); reflexivity.
+  - rewrite flat_map_concat_map, map_map, <- flat_map_concat_map. cbn [interp_of].
+    set (cf' := if ksetf (S k) then Some i else cf).
+    assert (Hcf : gam_of i cf (if ksetf (S k) then FSelf else FInit) = cf') by (unfold cf'; destruct (ksetf (S k)); reflexivity).
+    rewrite Hcf.
+    unfold child_events. fold cf'.
+    set (g := fun p : N * node => events (snd p) (kdead (S k) c (fst p) d) cf' (stk ++ [i])).
+    unfold live_fields.
+    transitivity (flat_map (fun f => field_events ch f (kdead (S k) c f d) cf' (stk ++ [i])) (map fst (kfields (S k)))).
+    { rewrite !flat_map_concat_map, !map_map, <- !flat_map_concat_map.
+      apply flat_map_nil_filter. intros [f b] Hin Hb. cbn [fst snd] in *. apply negb_false_iff in Hb. subst b.
+      eapply inert_field_events; [eassumption|].
+      unfold inert_in. apply existsb_exists. exists (f, true). split; [exact Hin|]. cbn [fst snd]. now rewrite N.eqb_refl. }
+    assert (Hre : flat_map g ch = flat_map g (flat_map (fun f => filter (fun p => N.eqb (fst p) f) ch) (map fst (kfields (S k))))).
+    { unfold grouped in Hg. rewrite Hg. reflexivity. }
+    rewrite Hre, flat_map_flat_map. apply flat_map_ext. intros f.
+    unfold field_events, g.
+    exact (filter_field_events (fun x dd => events x dd cf' (stk ++ [i])) (fun h => kdead (S k) c h d) f ch).
+Qed.
+
+Lemma wf_children_wf k ch : wf_children k ch -> forall f x, In (f, x) ch -> wf x.
+Proof.
+  induction ch as [|[g y] l IHl]; intros Hch f x Hin; [destruct Hin|].
+  destruct Hch as [[Hy _] Hl]. destruct Hin as [Heq|Hin]; [inversion Heq; now subst|eauto].
+Qed.
+
+Lemma push_frame_ok fr' r i stk : frame_ok fr' r = true -> push fr' i stk = stk ++ [i].
+Proof. destruct fr'; [reflexivity|reflexivity|discriminate]. Qed.
+
 Definition nopanic : ev -> bool := fun _ => false.
 
 Theorem walk_correct : forall fuel n st E,
@@ -201,50 +251,21 @@ Proof.
         rewrite IHl by (try lia; intros; eapply Hw; right; eassumption).
         cbn [flat_map snd]. unfold field_events. now rewrite app_assoc.
       + rewrite IHl by (try lia; intros; eapply Hw; right; eassumption). reflexivity. }
-  assert (Hwfx : forall f x, In (f, x) ch -> wf x).
-  { clear - Hch. induction ch as [|[g y] l IHl]; intros f x Hin; [destruct Hin|].
-    destruct Hch as [[Hy _] Hl]. destruct Hin as [Heq|Hin]; [inversion Heq; now subst|eauto]. }
+  pose proof (wf_children_wf k ch Hch) as Hwfx.
   destruct (kind_ok_spec AF fr _ _ (table_ok k) c d) as (xa & r & Habs & Hd & Hf & Hfr & Htr).
   unfold abs_run in Habs.
-  assert (Hpush : push fr i stk = stk ++ [i]) by (destruct fr; [reflexivity|reflexivity|discriminate]).
-  rewrite Hpush.
-  pose (gam := fun a => match a with FInit => cf | FSelf => Some i | FNil => None end).
-  pose (interp := fun it => match it with
-                            | TVisit t dx a => [{| e_id := i; e_tag := t; e_dead := dx; e_func := gam a; e_path := stk ++ [i] |}]
-                            | TWalk f dx a => field_events ch f dx (gam a) (stk ++ [i]) end).
-  pose proof (exec_sim c i gam eq_refl (stk ++ [i]) E (visit_ev nopanic i) (fun f d0 cf0 a => wl ch f d0 cf0 a) interp
-                (fun t d0 a E0 => eq_refl) (fun f d0 a E0 => Hwl ch Hwfx ltac:(lia) f d0 (gam a) (stk ++ [i]) E0)
+  rewrite (push_frame_ok fr r i stk Hfr).
+  pose proof (exec_sim c i (gam_of i cf) eq_refl (stk ++ [i]) E (visit_ev nopanic i) (fun f d0 cf0 a => wl ch f d0 cf0 a)
+                (interp_of i cf stk ch)
+                (fun t d0 a E0 => eq_refl) (fun f d0 a E0 => Hwl ch Hwfx ltac:(lia) f d0 (gam_of i cf a) (stk ++ [i]) E0)
                 _ _ _ _ _ Habs) as Hsim.
-  unfold conc in Hsim at 1. cbn [x_d x_f x_l x_p x_t flat_map gam] in Hsim. rewrite app_nil_r in Hsim.
+  unfold conc in Hsim at 1. cbn [x_d x_f x_l x_p x_t flat_map gam_of] in Hsim. rewrite app_nil_r in Hsim.
   rewrite Hsim. unfold conc. cbn [x_d x_f x_l x_p x_t fst snd].
   assert (Hpop : pop_normal fr r (stk ++ [i]) = Some stk).
   { destruct fr; cbn in Hfr |- *; [apply pop1_snoc| |discriminate].
     destruct r; [discriminate|apply pop1_snoc]. }
-  rewrite Hpop, Hd, Hf. cbn [gam]. f_equal. f_equal.
-  (* the interpreted trace is the specified event list *)
-  assert (Hdrop : flat_map interp (x_t xa) = flat_map interp (filter (keep (S k)) (x_t xa))).
-  { symmetry. apply flat_map_nil_filter. intros it _ Hk. destruct it as [t dx a|f dx a]; [discriminate|].
-    cbn [keep] in Hk. apply negb_false_iff in Hk. cbn [interp]. eapply inert_field_events; eassumption. }
-  rewrite Hdrop, Htr. rewrite events_eq. unfold expected. rewrite flat_map_app. f_equal.
-  - unfold own_event. destruct (ktag (S k)); reflexivity.
-  - rewrite flat_map_concat_map, map_map, <- flat_map_concat_map. cbn [interp gam].
-    set (cf' := if ksetf (S k) then Some i else cf).
-    assert (Hcf : gam (if ksetf (S k) then FSelf else FInit) = cf') by (unfold cf'; destruct (ksetf (S k)); reflexivity).
-    rewrite Hcf.
-    unfold child_events. fold cf'.
-    set (g := fun p : N * node => events (snd p) (kdead (S k) c (fst p) d) cf' (stk ++ [i])).
-    (* live fields only vs. all fields: inert fields contribute nothing *)
-    unfold live_fields.
-    transitivity (flat_map (fun f => field_events ch f (kdead (S k) c f d) cf' (stk ++ [i])) (map fst (kfields (S k)))).
-    { rewrite !flat_map_concat_map, !map_map, <- !flat_map_concat_map.
-      apply flat_map_nil_filter. intros [f b] Hin Hb. cbn [fst snd] in *. apply negb_false_iff in Hb. subst b.
-      eapply inert_field_events; [eassumption|].
-      unfold inert_in. apply existsb_exists. exists (f, true). split; [exact Hin|]. cbn [fst snd]. now rewrite N.eqb_refl. }
-    assert (Hre : flat_map g ch = flat_map g (flat_map (fun f => filter (fun p => N.eqb (fst p) f) ch) (map fst (kfields (S k))))).
-    { unfold grouped in Hg. rewrite Hg. reflexivity. }
-    rewrite Hre, flat_map_flat_map. apply flat_map_ext. intros f.
-    unfold field_events, g.
-    exact (filter_field_events (fun x dd => events x dd cf' (stk ++ [i])) (fun h => kdead (S k) c h d) f ch).
+  rewrite Hpop, Hd, Hf. cbn [gam_of]. f_equal. f_equal.
+  now apply trace_events with (c := c).
 Qed.
 
 (* the state is restored after every node: flag, current function, node path *)
